@@ -261,6 +261,23 @@ class FnTaint:
         for a in arg_locals:
             s_roots |= self.roots.get(a, set())
         changed = False
+        # getters of explicitly untrusted fields, directly or through a closure handed to a std combinator
+        if self.summaries is not None and not any_buf and not s_roots and has_int(dty) \
+                and (self.summaries.cfg_scalar_fields or self.summaries.cfg_buf_fields) and self._cur_loc is not None \
+                and not self.site_new.get(self._cur_loc):
+            src = None
+            if c.get("loc") and self.summaries.fx.has(f):
+                if self.summaries.returns_source(f):
+                    src = last
+            elif not c.get("loc") and last not in LEN_CALLS:
+                for a in arg_locals:
+                    for d in fn.defs(a):
+                        if d[1] == "assign" and d[2][2][0] == "agg" and isinstance(d[2][2][1], str) \
+                                and d[2][2][1].startswith("closure:") and self.summaries.returns_source(d[2][2][1][8:]):
+                            src = last + "(closure)"
+            if src:
+                self._new_root(dst, "%s line %s" % (src, c["ln"]), int_width(dty) or 64)
+                return True
         if last in LEN_CALLS:
             return False
         if last in LOOKUP_CALLS and ("HashMap" in f or "BTreeMap" in f or "HashSet" in f):
@@ -721,7 +738,7 @@ class FnTaint:
                 args = [op_local(a) for a in c["a"]]
                 any_buf = any(a in self.buf for a in args if a is not None)
                 if last in LEN_CALLS:
-                    r = set()
+                    r = set(self.site_new.get(loc, ()))     # nothing flows through; a getter of an untrusted field is a source
                 elif last in LOOKUP_CALLS and ("HashMap" in c["f"] or "BTreeMap" in c["f"] or "HashSet" in c["f"]):
                     # the value stored in a map does not derive from the key used to find it
                     a0 = args[0] if args else None
@@ -1078,6 +1095,9 @@ class Summaries:
         self._val = {}
         self._ctf = {}
         self._sp = {}
+        self._rs = {}
+        self.cfg_buf_fields = ()      # explicit untrusted-field patterns of the owning Closure (for returns_source)
+        self.cfg_scalar_fields = ()
         self.reg_buf = set()      # 'path::Adt::field' whose content is untrusted bytes / parsed data
         self.reg_scalar = set()   # 'path::Adt::field' holding an untrusted integer
         self.reg_version = 0
@@ -1141,6 +1161,34 @@ class Summaries:
         self._ctf[key] = res
         return res
 
+    def returns_source(self, fid):
+        """does the callee (a getter, or a closure handed to a combinator) return an integer read from one of the
+        explicitly configured untrusted fields, whatever its arguments are?"""
+        if not (self.cfg_scalar_fields or self.cfg_buf_fields):
+            return False
+        if fid in self._rs:
+            return self._rs[fid]
+        self._rs[fid] = False
+        fn = self.fn(fid)
+        if fn is None or not has_int(fn.ty(0)):
+            return False
+        # only the explicitly configured fields count here: the inferred registry is too coarse to turn every
+        # getter of a registered field into a fresh source
+        rb, rs = self.reg_buf, self.reg_scalar
+        self.reg_buf, self.reg_scalar = set(), set()
+        try:
+            ft = FnTaint(fn, (), (), self.cfg_buf_fields, self.cfg_scalar_fields, self, None)
+        finally:
+            self.reg_buf, self.reg_scalar = rb, rs
+        res = bool(ft.roots.get(0))
+        for e in fn.exits():
+            if res:
+                break
+            if ft.local_roots_at((e, len(fn.stmts(e))), 0):
+                res = True
+        self._rs[fid] = res
+        return res
+
     def scalar_passes(self, fid, param):
         """does an untrusted integer in `param` reach the callee's return value unclamped?"""
         key = (fid, param)
@@ -1189,6 +1237,8 @@ class Closure:
         self.fx = fx
         self.summ = Summaries(fx)
         self.summ.use_registry = use_registry
+        self.summ.cfg_buf_fields = tuple(buf_fields)
+        self.summ.cfg_scalar_fields = tuple(scalar_fields)
         self.buf_fields = buf_fields
         self.scalar_fields = scalar_fields
         self.extra_sources = extra_sources
@@ -1370,9 +1420,32 @@ def check_panics(ctx, fn, ft, rule="R-PANIC", report=True):
 ARITH_OPS = ("Add", "AddWithOverflow", "AddUnchecked", "Mul", "MulWithOverflow", "MulUnchecked", "Shl", "ShlUnchecked")
 
 
-def check_arith(ctx, fn, ft, rule="R-ARITH", report=True):
+def _callee_arith_on_param(fx, fid, pidx, ops, depth=0):
+    """line of an unchecked `ops` operation in crate-local `fid` whose operand derives from parameter pidx and whose
+    result reaches the return value (looked up one level further through crate-local callees)"""
+    rec = fx.raw(fid) if fx is not None and fx.has(fid) else None
+    if rec is None:
+        return None
+    cf = Fn(rec)
+    locs, sites = cf.backslice([0], max_nodes=300)
+    fw = cf.forward_locals([pidx])
+    for loc, kind, pl in sites:
+        if kind == "assign" and pl[2][0] == "bin" and pl[2][1] in ops:
+            if any(op_local(o) in fw for o in (pl[2][2], pl[2][3])):
+                return pl[3]
+        if kind == "call" and depth < 1 and pl.get("loc"):
+            for i, a in enumerate(pl["a"]):
+                if op_local(a) in fw:
+                    r = _callee_arith_on_param(fx, pl["f"], i + 1, ops, depth + 1)
+                    if r is not None:
+                        return r
+    return None
+
+
+def check_arith(ctx, fn, ft, rule="R-ARITH", report=True, ops=ARITH_OPS, fx=None):
     """a guard whose untrusted side is computed with wrapping/panicking arithmetic on a full-width
-    untrusted operand does not refuse huge values: it wraps (release) or panics (debug)"""
+    untrusted operand does not refuse huge values: it wraps (release) or panics (debug). With `fx`, a compared
+    value returned by a crate-local helper that applies the arithmetic to its parameter counts as well."""
     g = Guards(fn, ft)
     n = 0
     seen = set()
@@ -1388,10 +1461,29 @@ def check_arith(ctx, fn, ft, rule="R-ARITH", report=True):
                 continue
             visited.add(l)
             for loc, kind, pl in fn.defs(l):
+                if kind == "call" and fx is not None and pl.get("loc") and pl["d"] == [l]:
+                    for i, a in enumerate(pl["a"]):
+                        r = ft.roots_at(loc, a)
+                        if r and ft.bits_of(a) >= 64 and min(ft.width_of(r), 64) >= 64:
+                            line = _callee_arith_on_param(fx, pl["f"], i + 1, ops)
+                            key = (loc, pl["f"])
+                            if line is not None and key not in seen:
+                                seen.add(key)
+                                n += 1
+                                nm = pl["f"].rsplit("::", 1)[-1]
+                                ctx.obligation(rule, fn.id, "%s() feeding %s" % (nm, desc), False,
+                                               sample={"fn": fn.id, "helper": nm, "line": pl["ln"], "guard": desc})
+                                if report:
+                                    ctx.violation(rule, fn.id, "%s(untrusted) before the bound check" % nm,
+                                                  "the bound check %s compares the result of %s(), which applies unchecked "
+                                                  "arithmetic (line %s) to the full-width untrusted argument: a huge value wraps "
+                                                  "past the check (release) or panics (debug) instead of being refused"
+                                                  % (desc, nm, line), fn.file, pl["ln"])
+                    continue
                 if kind != "assign" or len(pl[1]) != 1:
                     continue
                 rv = pl[2]
-                if rv[0] == "bin" and rv[1] in ARITH_OPS:
+                if rv[0] == "bin" and rv[1] in ops:
                     for o in (rv[2], rv[3]):
                         r = ft.roots_at(loc, o)
                         if r and ft.bits_of(o) >= 64 and min(ft.width_of(r), 64) >= 64:
@@ -1433,4 +1525,105 @@ def check_arith(ctx, fn, ft, rule="R-ARITH", report=True):
                     p = op_place(pl[2][1])
                     if p and len(p) == 2 and p[1] == ".0":
                         work.append(p[0])
+    return n
+
+
+# ---------------------------------------------------------------------- R-DIV
+ZERO_TESTS = {("Eq", 0): True, ("Ne", 0): False, ("Gt", 0): False, ("Ge", 1): False, ("Lt", 1): True, ("Le", 0): True}
+
+
+def _copy_class(fn, d):
+    """locals holding the same value as d through plain copies/moves/int casts"""
+    cls = {d}
+    changed = True
+    while changed:
+        changed = False
+        for loc, st in fn.iter_locs():
+            if st[0] != "a" or len(st[1]) != 1:
+                continue
+            rv = st[2]
+            o = rv[1] if rv[0] == "use" else (rv[2] if rv[0] == "cast" and rv[1] == "IntToInt" else None)
+            if o is None:
+                continue
+            p = op_place(o)
+            if not p or len(p) != 1:
+                continue
+            a, b = st[1][0], p[0]
+            if (a in cls) != (b in cls) and (len(fn.defs(a)) == 1):
+                cls |= {a, b}
+                changed = True
+    return cls
+
+
+def check_div(ctx, fn, ft, rule="R-DIV", report=True):
+    """a division/remainder whose divisor comes from untrusted data must be preceded by a test that sends the
+    zero case elsewhere (or the divisor is built with max(_, k>=1) / NonZero)"""
+    n = 0
+    for b in fn.blocks():
+        t = fn.term(b)
+        if t[0] != "assert" or t[3] not in ("DivisionByZero", "RemainderByZero"):
+            continue
+        # the assert message carries the dividend; the divisor is the operand of the `== 0` test in the condition
+        cl = op_local(t[1])
+        dop = None
+        for dl, kind, pl in (fn.defs(cl) if cl is not None else ()):
+            if kind == "assign" and pl[2][0] == "bin" and pl[2][1] == "Eq":
+                for x, y in ((pl[2][2], pl[2][3]), (pl[2][3], pl[2][2])):
+                    k = op_const(y)
+                    if k is not None and k[0] == 0 and op_local(x) is not None:
+                        dop = x
+        d = op_local(dop) if dop is not None else None
+        if d is None:
+            continue
+        loc = (b, len(fn.stmts(b)))
+        roots = ft.roots_at(loc, dop)
+        if not roots:
+            continue
+        n += 1
+        cls = _copy_class(fn, d)
+        safe = None
+        # clamp by construction
+        for x in cls:
+            for dl, kind, pl in fn.defs(x):
+                if kind == "call" and pl["f"].rsplit("::", 1)[-1] in ("max", "clamp"):
+                    ks = [op_const(a) for a in pl["a"][1:2]]
+                    if ks and ks[0] is not None and isinstance(ks[0][0], int) and ks[0][0] >= 1:
+                        safe = "max(_, %d)" % ks[0][0]
+                if kind == "call" and "NonZero" in pl["f"]:
+                    safe = "NonZero"
+        if safe is None:
+            for (sb, i), st in fn.iter_locs():
+                if st[0] != "a" or st[2][0] != "bin" or len(st[1]) != 1:
+                    continue
+                for x, y, flip in ((st[2][2], st[2][3], False), (st[2][3], st[2][2], True)):
+                    k = op_const(y)
+                    if k is None or op_local(x) not in cls or not isinstance(k[0], int):
+                        continue
+                    op = st[2][1]
+                    if flip:
+                        op = {"Lt": "Gt", "Le": "Ge", "Gt": "Lt", "Ge": "Le"}.get(op, op)
+                    zt = ZERO_TESTS.get((op, k[0]))
+                    if zt is None:
+                        continue
+                    bl = st[1][0]
+                    for wb in fn.blocks():
+                        wt = fn.term(wb)
+                        if wt[0] != "sw" or op_local(wt[1]) != bl or not fn.dominates(wb, b) or wb == b:
+                            continue
+                        ev = fn.switch_edge_values(wb)
+                        explicit = [int(v) for v, _ in wt[2]]
+                        want = 1 if zt else 0
+                        for tgt, vals in ev.items():
+                            if want in vals or ("otherwise" in vals and want not in explicit):
+                                if b not in fn.reachable_from([tgt], avoid=[wb]):
+                                    safe = "%s %d @%s" % (st[2][1], k[0], st[3])
+        ok = safe is not None
+        ctx.obligation(rule, fn.id, "%s by %s" % (t[3], fn.local_name(d)), ok,
+                       sample={"fn": fn.id, "kind": t[3], "divisor": fn.local_name(d), "excluded_by": safe,
+                               "from": [ft.root_desc[r][0] for r in sorted(roots)][:2]})
+        if not ok and report:
+            src = ft.root_desc[sorted(roots)[0]][0]
+            ctx.violation(rule, fn.id, "%s by untrusted %s" % ("division" if t[3] == "DivisionByZero" else "remainder", fn.local_name(d)),
+                          "the divisor %s comes from untrusted input (%s) and no dominating test sends the zero case "
+                          "elsewhere: a crafted 0 panics instead of returning Err" % (fn.local_name(d), src), fn.file, t[5] if len(t) > 5 else fn.line)
     return n
